@@ -359,9 +359,11 @@ CHECKS["C19"] = {
          "timeout": {"quick": 2400, "thorough": 30000}},
         {"mod": "explorer-backend", "pkg": "./guardiansets", "entry": "VerifC19_Appends", "reach": ["end"], "opts": {"z3": "z3-new"}},
         {"mod": "explorer-backend", "pkg": "./guardiansets", "entry": "VerifC19_LookupDuringAppend", "reach": ["end", "served"], "opts": {"z3": "z3-new"}},
+        {"mod": "explorer-backend", "pkg": "./guardiansets", "entry": "VerifC19_ConcurrentAppends", "reach": ["end"], "opts": {"z3": "z3-new"}},
     ],
     "bounds": {"quick": {"gate": "1..3 known guardian sets of 1..3 keys (set i has index i); VAA naming index 0..3 or 70000, signed by 0..3 keys of any one known set (so: the named set, or ANOTHER set) with symbolic index bytes; body symbolic with one-digit chain ids/sequence; persistence queue (capacity 1) empty or full; then the same VAA again",
                          "appends": "1..3 known sets, then 1..2 appends of a contiguous batch [from..to] with symbolic bounds (to <= 6, from <= first unknown index, any overlap)",
+                         "concurrent appends": "1..2 known sets, two updaters delivering batches of 1..2 new sets concurrently, pre-empted before every mutex operation",
                          "lookup during append": "1..2 known sets, append of 1..2 sets, one lookup of index 0..3 forked after EVERY store the append performs to the shared object, and once afterwards"},
                "thorough": {"gate": "3 sets with up to 3 signatures"}},
     "outside": "more than one concurrent reader or writer; weak-memory reorderings and everything else only the race detector can tell (the interleaving is sequentially consistent, at the granularity of the writer's stores); the chain walk for a future index (the model has no network: it fails, as it does natively with an empty RPC URL); explorer-backend links the node module from the module cache (vaa.VerifySignatures / CalculateQuorum of that copy are what is executed)",
